@@ -16,6 +16,7 @@ mod explore;
 mod checks;
 mod c30;
 mod conformance;
+mod nsize;
 #[cfg(feature = "sr")]
 mod sr;
 
